@@ -213,11 +213,12 @@ def make_pub(txt):
 
 
 class Gen:
-    def __init__(self, repo, template_path, canary=False, relaxed=()):
+    def __init__(self, repo, template_path, canary=False, relaxed=(), auto_items=()):
         self.repo = repo
         self.tpath = template_path
         self.canary = canary
         self.relaxed = set(relaxed)
+        self.auto_items = list(auto_items)   # (repo-relative file, 'const'|'static', name): see run.verify_unit
         self.files = {}
         self.out = []          # lines
         self.fns = []          # function records
@@ -247,6 +248,8 @@ class Gen:
             ln = lines[i]
             s = ln.strip()
             if not s.startswith('//@'):
+                if s.startswith('} // verus!') and self.auto_items:
+                    self.emit_auto_items()
                 self.out.append(ln)
                 i += 1
                 continue
@@ -298,6 +301,23 @@ class Gen:
                 i += 1
         self.canary_skipped = [re.sub(r'\s*\|.*', '', r) for (r, _, _) in self.pending_canaries]
         return '\n'.join(self.out) + '\n'
+
+    def emit_auto_items(self):
+        """AUTO: file-level `const` / `static` items of the repository that an extracted function refers to but the
+        template does not list (typically introduced by the change under test) are copied to the crate root of the
+        generated file, so that the function is decided instead of failing to compile."""
+        for rel, kind, name in self.auto_items:
+            sf = SourceFile(self.repo, rel)
+            span = L.find_item(sf.mask, kind, name, 0, len(sf.src))
+            if not span:
+                raise Undecided('lost anchor: auto item %s %s in %s' % (kind, name, rel))
+            txt = L.strip_attrs_and_comments(sf.src[span[0]:span[1]]).strip()
+            txt = re.sub(r'^(pub(\([^)]*\))?\s+)?', 'pub ', txt, count=1)
+            txt = re.sub(r':\s*&\s*(?!\')', ": &'static ", txt, count=1)
+            self.emit(txt)
+            self.items.append({'item': kind + ' ' + name, 'file': rel, 'line': sf.line_of(span[0]), 'auto': True})
+            self.rewrites.append(('AUTO', 'item ' + name, '', 'copied from ' + rel))
+        self.auto_items = []
 
     # ------------------------------------------------------------------ items
     def do_item(self, rest, indent):
@@ -811,7 +831,7 @@ class Gen:
         self.fns.append(rec)
 
 
-def generate(repo, template_path, canary=False, relaxed=()):
-    g = Gen(repo, template_path, canary, relaxed)
+def generate(repo, template_path, canary=False, relaxed=(), auto_items=()):
+    g = Gen(repo, template_path, canary, relaxed, auto_items)
     text = g.run()
     return g, text
